@@ -203,7 +203,19 @@ def extract_picos(problem):
         v.handle.value = val
 
     obj = problem.objective
-    exprs = [obj.function if obj.function is not None else picos.Constant(0)]
+    f = obj.function if obj.function is not None else picos.Constant(0)
+    norm_terms = []
+    tn = type(f).__name__
+    if tn == "WeightedSum":
+        for w, e in zip(f.weights, f.expressions):
+            if type(e).__name__ != "SpectralNorm":
+                raise ValueError(f"unsupported objective term {type(e).__name__}")
+            norm_terms.append((float(w), e.x))
+        f = picos.Constant(0)
+    elif tn == "SpectralNorm":
+        norm_terms.append((1.0, f.x))
+        f = picos.Constant(0)
+    exprs = [f] + [x for _, x in norm_terms]
     cons = []
     for c in problem.constraints.values():
         n = type(c).__name__
@@ -249,8 +261,11 @@ def extract_picos(problem):
     affs = [Affine(c, t) for c, t in zip(consts, terms)]
     for a_, e_ in zip(affs, allx):
         a_.handle = e_
-    return Program("picos", variables, obj.direction if obj.direction in ("max", "min") else "find", affs[0],
-                   [(k, a) for (k, _), a in zip(cons, affs[1:])])
+    nn = len(norm_terms)
+    prog = Program("picos", variables, obj.direction if obj.direction in ("max", "min") else "find", affs[0],
+                   [(k, a) for (k, _), a in zip(cons, affs[1 + nn:])])
+    prog.obj_norm_terms = [(w, "specnorm", a) for (w, _), a in zip(norm_terms, affs[1:1 + nn])]
+    return prog
 
 
 def extract(cap):
@@ -301,9 +316,17 @@ def affine_to_sym(aff, coords, tol=1e-9):
     return out.view(SymArray)
 
 
+def specnorm(M):
+    """spectral norm as an uninterpreted function of the matrix' normal form (used by captured and reference programs alike)"""
+    from symnp.array import kernel
+    return kernel("specnorm", [np.asarray(M, dtype=object)], [((), "r")], concrete=lambda m: np.linalg.norm(m, 2))[0]
+
+
 def program_to_sym(prog, coords):
-    return SymProgram(prog.sense, affine_to_sym(prog.objective, coords),
-                      [(k, affine_to_sym(a, coords)) for k, a in prog.constraints])
+    obj = affine_to_sym(prog.objective, coords)
+    for w, kind, a in getattr(prog, "obj_norm_terms", []):
+        obj = np.asarray(obj, dtype=object) + lift(to_frac(w)) * specnorm(affine_to_sym(a, coords))
+    return SymProgram(prog.sense, obj, [(k, affine_to_sym(a, coords)) for k, a in prog.constraints])
 
 
 _PSD_UF = {}
